@@ -1127,6 +1127,33 @@ func C05(run *core.Run) {
 			report(cfg, doc, out, v)
 		}
 	})
+	// every colour keyword and the hex value of every keyword, in every colour attribute (fixed sweep)
+	for _, name := range cssColorNames {
+		hex := "#" + cssNamedColors[name]
+		doc := fmt.Sprintf(`<svg xmlns="http://www.w3.org/2000/svg"><rect fill="%s" stroke="%s" width="5"/><g stop-color="%s" flood-color="%s" lighting-color="%s" color="%s"><path d="M0 0L1 1" fill="%s" stroke="%s"/></g></svg>`,
+			name, hex, name, hex, strings.ToUpper(name), strings.ToUpper(hex), hex, name)
+		run.Eval()
+		v, out := c05Judge(doc, false)
+		if v != "" && v != "INVALID-INPUT" && !strings.HasPrefix(v, "REJECTED") {
+			report("svg colour sweep", doc, out, v)
+		} else if v == "" {
+			run.Count("colour_sweep_documents_compared")
+		}
+	}
+	// namespace declarations away from the root: each element's own declaration is the only one in scope for it
+	for _, doc := range []string{
+		`<svg xmlns="http://www.w3.org/2000/svg"><defs><path id="p" d="M0 0L1 1"/></defs><use xmlns:xlink="http://www.w3.org/1999/xlink" xlink:href="#p"/><use xmlns:xlink="http://www.w3.org/1999/xlink" xlink:href="#p" x="5"/></svg>`,
+		`<svg xmlns="http://www.w3.org/2000/svg"><g><image xmlns:xlink="http://www.w3.org/1999/xlink" xlink:href="a.png" width="5"/></g><g><image xmlns:xlink="http://www.w3.org/1999/xlink" xlink:href="b.png" width="5"/><a xmlns:xlink="http://www.w3.org/1999/xlink" xlink:href="c.html"><text>t</text></a></g></svg>`,
+		`<svg xmlns="http://www.w3.org/2000/svg"><g xmlns:xlink="http://www.w3.org/1999/xlink"><use xlink:href="#a"/></g><g xmlns:xlink="http://www.w3.org/1999/xlink"><use xlink:href="#b"/></g></svg>`,
+	} {
+		run.Eval()
+		v, out := c05Judge(doc, false)
+		if v != "" && v != "INVALID-INPUT" && !strings.HasPrefix(v, "REJECTED") {
+			report("svg namespace declarations", doc, out, v)
+		} else if v == "" {
+			run.Count("namespace_documents_compared")
+		}
+	}
 	for _, doc := range frozenCorpus("svg") {
 		run.Eval()
 		v, out := c05Judge(doc, false)
